@@ -55,7 +55,7 @@ func hC02ClaimKey() string {
 		return named[c]
 	}
 	vTag("claimkey")
-	return vString(vLen(1, vParam("keylen", 3)))
+	return vString(vLen(1, vParam("g_keylen", 3)))
 }
 
 // H02g: issue (real createAccessToken at t0) / introspect (real IntrospectAccessToken at t1 >= t0, real
@@ -64,8 +64,8 @@ func H02g() {
 	publicURL, _ := url.Parse("https://n")
 	db := newHC02DB()
 	r := Wrapper{storageEngine: hC02Engine{db: db}, auth: hC02Auth{publicURL: publicURL}}
-	t0 := hC02SymTime("t0", 0, 1<<33)
-	t1 := hC02SymTime("t1", 0, 1<<33)
+	t0 := hC02SymTime("t0", 0, 1<<33, vParam("g_nsecs", 1))
+	t1 := hC02SymTime("t1", 0, 1<<33, vParam("g_nsecs", 1))
 	vAssume(t0.sec < t1.sec || (t0.sec == t1.sec && t0.nsec <= t1.nsec))
 	if vBool() {
 		db.lag = time.Minute
@@ -82,7 +82,7 @@ func H02g() {
 	var thumb []byte
 	if vBool() {
 		vTag("thumbprint")
-		thumb = vBytes(vParam("thumb", 2))
+		thumb = vBytes(vParam("g_thumb", 2))
 		proofOfPossession = &dpop.DPoP{Kid: "kid", Headers: hC02Headers{key: hC02JWK{thumb: thumb}}}
 	}
 	hC02Clock = t0.t
@@ -216,7 +216,7 @@ func H02g_twin() {
 	publicURL, _ := url.Parse("https://n")
 	db := newHC02DB()
 	r := Wrapper{storageEngine: hC02Engine{db: db}, auth: hC02Auth{publicURL: publicURL}}
-	t0 := hC02SymTime("t0", 1700000000, 1700000100)
+	t0 := hC02SymTime("t0", 1700000000, 1700000100, 1)
 	hC02Clock = t0.t
 	issued, err := r.createAccessToken("i", "c", time.Now(), "s", *newPEXConsumer(nil), nil)
 	if err != nil {
